@@ -37,6 +37,17 @@ MUTATORS = {'append', 'extend', 'insert', 'remove', 'pop', 'clear', 'sort', 'rev
 IGNORED_CALLS = {'print', 'dprint'}
 
 
+def _is_condition(e) -> bool:
+    """syntactically a truth value: a comparison, and/or of conditions, or a negation"""
+    if isinstance(e, ast.Compare):
+        return True
+    if isinstance(e, ast.UnaryOp) and isinstance(e.op, ast.Not):
+        return True
+    if isinstance(e, ast.BoolOp):
+        return all(_is_condition(v) for v in e.values)
+    return False
+
+
 def _is_exception_name(nm: str) -> bool:
     import builtins
     c = getattr(builtins, nm, None)
@@ -369,6 +380,18 @@ class Executor:
             if isinstance(s, ast.AnnAssign) and s.value is None:
                 return [(st, ('fall',))]
             targets = s.targets if isinstance(s, ast.Assign) else [s.target]
+            if len(targets) == 1 and isinstance(targets[0], ast.Name) and _is_condition(s.value):
+                # flag = <condition>: decided here, per path (a later `if flag:` / `return flag` then follows the path;
+                # keeping the expression instead would re-read state that may have been written in between)
+                outs = []
+                for s3, b, ex3 in self.branch(s.value, st, fctx, ln):
+                    if ex3:
+                        outs.append((s3, ex3))
+                        continue
+                    s3.locals[targets[0].id] = ast.Constant(value=bool(b))
+                    s3.counters.pop('@alias:' + targets[0].id, None)
+                    outs.append((s3, ('fall',)))
+                return outs
             outs = []
             for s2, v, ex in self.ev(s.value, st, fctx):
                 if ex:
@@ -408,16 +431,11 @@ class Executor:
         if isinstance(s, ast.Return):
             if s.value is None:
                 return [(st, ('return', None, ln))]
-            outs = []
-            for s2, v, ex in self.ev(s.value, st, fctx):
-                if not ex and isinstance(v, (ast.Compare, ast.BoolOp)) or (not ex and isinstance(v, ast.UnaryOp) and isinstance(v.op, ast.Not)):
-                    # `return <condition>`: the value is the truth of the condition on each path (the same table as
-                    # `if <condition>: return True / else: return False`)
-                    for s3, b, ex3 in self.branch(v, s2, fctx, ln):
-                        outs.append((s3, ex3 or ('return', ast.Constant(value=bool(b)), ln)))
-                    continue
-                outs.append((s2, ex or ('return', v, ln)))
-            return outs
+            if _is_condition(s.value):
+                # `return <condition>`: the value is the truth of the condition on each path (the same table as
+                # `if <condition>: return True / else: return False`)
+                return [(s3, ex3 or ('return', ast.Constant(value=bool(b)), ln)) for s3, b, ex3 in self.branch(s.value, st, fctx, ln)]
+            return [(s2, ex or ('return', v, ln)) for s2, v, ex in self.ev(s.value, st, fctx)]
         if isinstance(s, ast.Raise):
             if s.exc is None:
                 return [(st, ('raise', 'reraise', ln))]
